@@ -312,6 +312,22 @@ def assembly_cases(ctx):
                 want = ramp(0, 0, 0, t=t_frame) * vecA(pos[:, 0], pos[:, 1], np.full(3, zq))
                 if not np.allclose(ap["applied"], want, rtol=1e-12, atol=1e-15):
                     fail("applied-wrong-time", f"applied vector potential of frame {step} (time {t_frame}) evaluated at another time", step=step)
+        # evaluation points on an INTEGER grid (pixel indices, a list of Python ints) at a fractional height: the same
+        # numbers as with the grid given in floating point
+        for grid in (np.array([[0, 0], [1, -1], [2, 1]], dtype=int), [[0, 0], [1, 1]], np.array([[0, 0], [1, -1]], dtype=np.int32)):
+            gf = np.asarray(grid, dtype=float)
+            for zfrac in (0.6 * sc_, 1.37 * sc_):
+                for what_, fn_ in (("field", lambda p_, z_: np.asarray(sol.field_at_position(p_, zs=z_, with_units=False), dtype=float)),
+                                   ("potential", lambda p_, z_: np.asarray(sol.vector_potential_at_position(p_, zs=z_, with_units=False), dtype=float))):
+                    try:
+                        gi_, gf_ = fn_(grid, zfrac), fn_(gf, zfrac)
+                    except Exception as e:  # noqa
+                        fail("integer-positions-raise", f"{what_} at integer-typed positions raised {type(e).__name__}: {e}")
+                        continue
+                    ctx.count("integer_grid_evaluations")
+                    if gi_.shape != gf_.shape or not np.allclose(gi_, gf_, rtol=1e-12, atol=0, equal_nan=False):
+                        fail("integer-positions", f"{what_} at integer-typed positions and height {zfrac / sc_:.3g} um differs from the same positions given as floats "
+                             f"({np.asarray(gi_).ravel()[:3]} vs {np.asarray(gf_).ravel()[:3]})", height=float(zfrac / sc_), output=what_)
         # a single position is allowed by the documentation
         try:
             one = sol.vector_potential_at_position([0.3, 0.2], zs=0.6, with_units=False)
